@@ -24,14 +24,16 @@ Proof.
   - specialize (IH frames Hok). destruct (fill frames rest) as [evs b]. cbn [fst] in *. constructor; [exact I|assumption].
   - specialize (IH frames Hok). destruct (fill frames rest) as [evs b]. cbn [fst] in *. constructor; [exact I|assumption].
   - specialize (IH frames Hok). destruct (fill frames rest) as [evs b]. cbn [fst] in *. constructor; [exact I|assumption].
+  - specialize (IH frames Hok). destruct (fill frames rest) as [evs b]. cbn [fst] in *. constructor; [exact I|assumption].
 Qed.
 
 Lemma fill_strip : forall cevs frames,
   fill frames (cstrip cevs) = (R.strip (fst (fill frames cevs)), snd (fill frames cevs)).
 Proof.
   induction cevs as [|ev rest IH]; intros frames; [reflexivity|].
-  destruct ev as [|[lvl|]| |]; cbn [cstrip fill].
+  destruct ev as [|[lvl|]| | |]; cbn [cstrip fill].
   - destruct frames as [|f fs]; [reflexivity|]. rewrite IH. destruct (fill fs rest) as [evs b]. reflexivity.
+  - rewrite IH. destruct (fill frames rest) as [evs b]. reflexivity.
   - rewrite IH. destruct (fill frames rest) as [evs b]. reflexivity.
   - rewrite IH. destruct (fill frames rest) as [evs b]. reflexivity.
   - rewrite IH. destruct (fill frames rest) as [evs b]. reflexivity.
